@@ -1,5 +1,6 @@
 import errno
 import io
+import os
 import sys
 from abc import ABC, abstractmethod
 from enum import Enum
@@ -189,6 +190,24 @@ class ProxyRecordWriter(ProxyWriter):
         self.__init__(n_files, **kwargs)
 
 
+def output_format_from_name(path) -> Optional[str]:
+    """
+    Return "fasta" or "fastq" if the file name extension (before a compression
+    suffix) says so, None otherwise. This recognizes the same names as dnaio.
+    """
+    name = os.fspath(path).lower()
+    for ext in (".gz", ".xz", ".bz2", ".zst"):
+        if name.endswith(ext):
+            name = name[: -len(ext)]
+            break
+    name, ext = os.path.splitext(name)
+    if ext in (".fasta", ".fa", ".fna", ".csfasta", ".csfa"):
+        return "fasta"
+    elif ext in (".fastq", ".fq") or (ext == ".txt" and name.endswith("_sequence")):
+        return "fastq"
+    return None
+
+
 class OutputFiles:
     def __init__(
         self,
@@ -244,6 +263,13 @@ class OutputFiles:
             paths = ("-",)
         for path in paths:
             assert path is not None
+        if "fileformat" not in kwargs:
+            # Compressed files and the in-memory buffers used with multiple cores
+            # do not (reliably) know their file name, so dnaio cannot detect the
+            # format from it
+            formats = set(output_format_from_name(path) for path in paths)
+            if len(formats) == 1 and None not in formats:
+                kwargs["fileformat"] = formats.pop()
         binary_files = []
         for path in paths:
             binary_file = self._file_opener.xopen(path, "wb")
